@@ -1436,3 +1436,115 @@ Proof.
   destruct (svg_lines_of (svg_split_lines styled)); [|discriminate]. injection H as <-. cbn [svg_d_sheet].
   eapply svg_color_styles_sorted; [|exact E]. exact I.
 Qed.
+
+(* ======================================================================== *)
+(* I. the classes against the concrete specification (Spec/SvgSpec
+   svg_spec_fg_classes / svg_spec_bg_class)                                  *)
+
+Lemma svg_contains_bit e k : svg_contains e (N.shiftl 1 k) = N.testbit e k.
+Proof.
+  unfold svg_contains. rewrite N.shiftl_1_l. destruct (N.testbit e k) eqn:T.
+  - apply N.eqb_eq. apply N.bits_inj. intros n. rewrite N.land_spec, N.pow2_bits_eqb.
+    destruct (N.eqb_spec k n) as [<-|_]; [rewrite T; reflexivity | apply andb_false_r].
+  - apply N.eqb_neq. intros H.
+    assert (N.testbit (N.land e (2 ^ k)) k = N.testbit (2 ^ k) k) as H0 by (rewrite H; reflexivity).
+    rewrite N.land_spec, N.pow2_bits_true, T in H0. discriminate.
+Qed.
+
+Lemma svg_contains_bit_ldiff e k : k <> 9 -> svg_contains (N.ldiff e eff_invert) (N.shiftl 1 k) = N.testbit e k.
+Proof.
+  intros Hk. rewrite svg_contains_bit, N.ldiff_spec. unfold eff_invert. rewrite N.shiftl_1_l, N.pow2_bits_eqb.
+  destruct (N.eqb_spec 9 k) as [E|_]; [symmetry in E; contradiction | apply andb_true_r].
+Qed.
+
+(* the generated effect list of write_fg_span is the documented one *)
+Definition svg_effect_rel (a b : N * list N) : Prop := snd a = snd b /\ fst a = N.shiftl 1 (fst b) /\ fst b <> 9.
+
+Lemma svg_effect_tables : Forall2 svg_effect_rel svg_effect_classes svg_spec_effect_table.
+Proof. repeat constructor; cbn; discriminate. Qed.
+
+Lemma svg_effect_filter (f : N -> N) e :
+  (forall k, k <> 9 -> svg_contains (f e) (N.shiftl 1 k) = N.testbit e k) ->
+  forall t1 t2, Forall2 svg_effect_rel t1 t2 ->
+  map snd (filter (fun p => svg_contains (f e) (fst p)) t1) = map snd (filter (fun p => N.testbit e (fst p)) t2).
+Proof.
+  intros Hf t1 t2 H. induction H as [|a b t1 t2 (Hs & Hm & Hk) _ IH]; [reflexivity|].
+  cbn [filter]. rewrite Hm, (Hf _ Hk). destruct (N.testbit e (fst b)); cbn [map]; rewrite IH, ?Hs; reflexivity.
+Qed.
+
+Lemma svg_spec_name_agrees prefix c :
+  In prefix svg_prefixes -> svg_colour_ok c = true -> svg_color_name prefix c = Some (svg_spec_colour_name prefix c).
+Proof.
+  intros Hp Hc. destruct c as [a|i|r g b].
+  - cbn [svg_colour_ok] in Hc. apply N.ltb_lt in Hc.
+    assert (forallb (fun p => forallb (fun a => svg_opt_list_eqb (svg_color_name p (CAnsi a)) (Some (svg_spec_colour_name p (CAnsi a)))) svg_ansi16) svg_prefixes = true) as K
+      by (vm_compute; reflexivity).
+    rewrite forallb_forall in K. specialize (K prefix Hp). cbv beta in K.
+    rewrite forallb_forall in K. specialize (K a (svg_ansi16_In a Hc)). cbv beta in K.
+    destruct (svg_color_name prefix (CAnsi a)) as [n|]; [|discriminate]. cbn [svg_opt_list_eqb] in K. f_equal.
+    revert K. generalize (svg_spec_colour_name prefix (CAnsi a)). clear. induction n as [|x n IH]; intros [|y m] H; cbn in H; try discriminate; [reflexivity|].
+    apply andb_true_iff in H. destruct H as [H1 H2]. apply N.eqb_eq in H1. subst. f_equal. apply IH, H2.
+  - reflexivity.
+  - reflexivity.
+Qed.
+
+Lemma svg_invert_cases t s :
+  (N.testbit (s_eff s) INVERT = true
+   /\ svg_invert t s = mkStyle (Some (match s_bg s with Some c => c | None => svg_t_bg t end))
+                               (Some (match s_fg s with Some c => c | None => svg_t_fg t end))
+                               (s_ul s) (N.ldiff (s_eff s) eff_invert))
+  \/ (N.testbit (s_eff s) INVERT = false /\ svg_invert t s = s).
+Proof.
+  unfold svg_invert. replace (svg_contains (s_eff s) eff_invert) with (N.testbit (s_eff s) INVERT)
+    by (symmetry; exact (svg_contains_bit (s_eff s) 9)).
+  destruct (N.testbit (s_eff s) INVERT); [left | right]; split; reflexivity.
+Qed.
+
+Lemma svg_fg_classes_spec t s cl :
+  svg_colour_ok (svg_t_fg t) = true -> svg_colour_ok (svg_t_bg t) = true -> svg_style_ok s = true ->
+  svg_fg_classes (svg_invert t s) = Some cl -> cl = svg_spec_fg_classes (svg_t_fg t) (svg_t_bg t) s.
+Proof.
+  intros Hdf Hdb Hs H. pose proof (svg_style_ok_elim _ (svg_invert_ok t s Hdf Hdb Hs)) as (Of & _ & Ou).
+  unfold svg_fg_classes, svg_opt_class in H. unfold svg_spec_fg_classes, svg_spec_drawn_fg.
+  destruct (svg_invert_cases t s) as [[T E]|[T E]]; rewrite E in H, Of, Ou; rewrite T; cbn [s_fg s_ul s_eff] in H, Of, Ou.
+  - rewrite (svg_effect_filter (fun e => N.ldiff e eff_invert) (s_eff s) (fun k Hk => svg_contains_bit_ldiff _ k Hk) _ _ svg_effect_tables) in H.
+    rewrite (svg_spec_name_agrees svg_fg_prefix _ ltac:(cbn; auto) Of) in H.
+    destruct (s_ul s) as [u|]; [rewrite (svg_spec_name_agrees svg_underline_prefix u ltac:(cbn; auto 4) Ou) in H|];
+      injection H as <-; reflexivity.
+  - rewrite (svg_effect_filter (fun e => e) (s_eff s) (fun k _ => svg_contains_bit _ k) _ _ svg_effect_tables) in H.
+    destruct (s_fg s) as [f|]; [rewrite (svg_spec_name_agrees svg_fg_prefix f ltac:(cbn; auto) Of) in H|];
+      (destruct (s_ul s) as [u|]; [rewrite (svg_spec_name_agrees svg_underline_prefix u ltac:(cbn; auto 4) Ou) in H|]);
+      injection H as <-; reflexivity.
+Qed.
+
+Lemma svg_bg_classes_spec t s cl :
+  svg_colour_ok (svg_t_fg t) = true -> svg_colour_ok (svg_t_bg t) = true -> svg_style_ok s = true ->
+  svg_bg_classes (svg_invert t s) = Some cl ->
+  cl = match svg_spec_bg_class (svg_t_fg t) (svg_t_bg t) s with Some c => [c] | None => [] end.
+Proof.
+  intros Hdf Hdb Hs H. pose proof (svg_style_ok_elim _ (svg_invert_ok t s Hdf Hdb Hs)) as (_ & Ob & _).
+  unfold svg_bg_classes, svg_opt_class in H. unfold svg_spec_bg_class, svg_spec_drawn_bg.
+  destruct (svg_invert_cases t s) as [[T E]|[T E]]; rewrite E in H, Ob; rewrite T; cbn [s_bg] in H, Ob.
+  - rewrite (svg_spec_name_agrees svg_bg_prefix _ ltac:(cbn; auto) Ob) in H. injection H as <-. reflexivity.
+  - destruct (s_bg s) as [b|]; [rewrite (svg_spec_name_agrees svg_bg_prefix b ltac:(cbn; auto) Ob) in H|]; injection H as <-; reflexivity.
+Qed.
+
+Theorem svg_classes_denote_spec_style t input d runs p c :
+  svg_colour_ok (svg_t_fg t) = true -> svg_colour_ok (svg_t_bg t) = true ->
+  extract_next input parser_new capture_default = Some (runs, p, c) -> svg_doc t input = Some d ->
+  forall l, In l (svg_d_lines d) ->
+  (forall span, In span (svg_l_fg l) ->
+     exists s0 t0, In (s0, t0) runs /\ svg_sub (snd span) t0 /\ snd span <> [] /\
+       fst span = svg_spec_fg_classes (svg_t_fg t) (svg_t_bg t) s0)
+  /\ (forall bg span, svg_l_bg l = Some bg -> In span bg ->
+     exists s0 t0, In (s0, t0) runs /\ svg_sub (snd span) t0 /\ snd span <> [] /\
+       fst span = match svg_spec_bg_class (svg_t_fg t) (svg_t_bg t) s0 with Some cls => [cls] | None => [] end).
+Proof.
+  intros Hdf Hdb He Hd l Hl. destruct (svg_span_origin _ _ _ _ _ _ He Hd l Hl) as [F B].
+  pose proof (svg_extract_next_ok _ _ _ _ He) as Hruns. rewrite Forall_forall in Hruns.
+  split.
+  - intros span Hin. destruct (F span Hin) as (Hne & s0 & t0 & Hr & Hs & Hc). exists s0, t0. repeat split; auto.
+    destruct (Hruns _ Hr) as [Hok _]. eapply svg_fg_classes_spec; eauto.
+  - intros bg span Eb Hin. destruct (B bg span Eb Hin) as (Hne & s0 & t0 & Hr & Hs & Hc). exists s0, t0. repeat split; auto.
+    destruct (Hruns _ Hr) as [Hok _]. eapply svg_bg_classes_spec; eauto.
+Qed.
